@@ -65,7 +65,13 @@ func Seed() int {
 func New(prop, level string) *Run {
 	r := &Run{Prop: prop, Tier: Tier(), Level: level, Seed: Seed(), Coverage: map[string]any{}, start: time.Now(),
 		known: map[string]Finding{}, knownHit: map[string]int{}, unknown: map[string]string{}}
-	if os.Getenv("VERIF_EVIDENCE_DIR") == "" {
+	replaying := false
+	for _, a := range os.Args[1:] {
+		if a == "replay" {
+			replaying = true // a replay reads a file of that directory
+		}
+	}
+	if os.Getenv("VERIF_EVIDENCE_DIR") == "" && !replaying {
 		_ = os.RemoveAll(filepath.Join(Root, "replays", prop))
 	}
 	var kf knownFile
